@@ -19,6 +19,9 @@ try:
         det = [l for l in out.split("\n") if "broken:" in l or "property fails" in l or "disagreement" in l][:4]
         print("%s: %s rc=%d %s" % (i, "FIRED" if (p.returncode == 1 and v) else "MISSED", p.returncode, v[0] if v else ""))
         for d in det: print("     " + d.strip()[:260])
+        if p.returncode != 0 and not v:
+            print("     -- no VIOLATION line; tail of output:")
+            for l in out.split("\n")[-12:]: print("     | " + l[:300])
 finally:
-    sh("git -C /repo checkout -- . ; git -C /repo reset -q")
+    sh("git -C /repo reset -q --hard")
     print("repo restored:", sh("git -C /repo status --porcelain --untracked-files=no").strip() == "")
